@@ -30,6 +30,12 @@ theorem head_not_mem_members {R : Rings} (wf : Wf R) {k j : Nat} {l : List Node}
   obtain ⟨e, he⟩ := members_tail_elems wf h _ hn
   cases he
 
+theorem map_erase_head {R : Rings} (wf : Wf R) (j k : Nat) :
+    (members R j).map (fun l => l.erase (Node.head k)) = members R j := by
+  cases hm : members R j with
+  | none => rfl
+  | some l => simp [List.erase_of_not_mem (head_not_mem_members wf hm)]
+
 /-- a new one-node ring -/
 theorem members_cons_single (R : Rings) (n : Node) (j : Nat) :
     members ([n] :: R) j = if n = Node.head j then some [] else members R j := by
